@@ -1,0 +1,6 @@
+//go:build verif
+
+package store
+
+// VerifGC runs one collector pass synchronously (the production pass is driven by a 30 s timer).
+func (s *Storer) VerifGC() { s.gcLog() }
